@@ -338,6 +338,77 @@ def run_build(ctx, n):
         ctx.corr("Tree.digest(buildTree files)~build()", case, {"oid": v["oid"], "bytes": v["bytes"]}, {"oid": ans["oid"], "bytes": ans["bytes"]})
 
 
+def run_tree_history(ctx, n):
+    """one Tree object that is queried (sub-tree, filter, listing) and then updated in place - entries re-added with a new hash,
+    entries added - and queried again: every answer must equal the answer of a tree built afresh from the current entries"""
+    from dvc_data.hashfile.hash_info import HashInfo
+    from dvc_data.hashfile.tree import Tree
+
+    rng = ctx.rng
+    for _ in range(n):
+        files = gen.rand_tree(rng, max_files=6, allow_odd=False)
+        cur = {k: md5hex(v) for k, v in files.items()}
+        t = Tree()
+        for k, h in cur.items():
+            t.add(k, None, HashInfo("md5", h))
+        ops = []
+
+        def view(tree, pfx):
+            out = {}
+            try:
+                out["filter"] = sorted(("/".join(k), hi.value) for k, (_m, hi) in (tree.filter(pfx)._dict.items() if tree.filter(pfx) is not None else []))
+            except Exception as e:  # noqa: BLE001
+                out["filter"] = type(e).__name__
+            try:
+                o = tree.get_obj(None, pfx)
+                if o is None:
+                    out["get_obj"] = None
+                elif hasattr(o, "digest"):
+                    o.digest()
+                    out["get_obj"] = o.hash_info.value
+                else:
+                    out["get_obj"] = o.value
+            except Exception as e:  # noqa: BLE001
+                out["get_obj"] = type(e).__name__
+            try:
+                out["ls"] = sorted(str(x) for x in tree.ls(pfx)) if hasattr(tree, "ls") else None
+            except Exception as e:  # noqa: BLE001
+                out["ls"] = type(e).__name__
+            return out
+
+        bad = None
+        for step in range(rng.randrange(3, 8)):
+            prefixes = sorted({k[:i] for k in cur for i in range(1, len(k))}) or [()]
+            pfx = rng.choice(prefixes)
+            r = rng.random()
+            if r < 0.45:
+                fresh = Tree()
+                for k, h in cur.items():
+                    fresh.add(k, None, HashInfo("md5", h))
+                a, b = view(t, pfx), view(fresh, pfx)
+                ops.append(["query", list(pfx)])
+                if a != b and bad is None:
+                    bad = {"why": "a tree updated in place answers differently from a tree built afresh from the same entries",
+                           "prefix": list(pfx), "updated": a, "fresh": b}
+            elif r < 0.8:
+                k = rng.choice(sorted(cur))
+                cur[k] = md5hex(b"new-%d" % rng.randrange(10**6))
+                t.add(k, None, HashInfo("md5", cur[k]))
+                ops.append(["re-add", list(k)])
+            else:
+                k = rng.choice(prefixes) + ("added-%d" % step,) if prefixes != [()] else ("added-%d" % step,)
+                cur[k] = md5hex(b"add-%d" % rng.randrange(10**6))
+                t.add(k, None, HashInfo("md5", cur[k]))
+                ops.append(["add", list(k)])
+        t.digest()
+        case = {"tree_history": {"files": {"/".join(k): v for k, v in files.items() and {kk: md5hex(vv) for kk, vv in files.items()}.items()}, "ops": ops}}
+        ctx.case(case, nontrivial=any(o[0] == "re-add" for o in ops))
+        ctx.count("tree_history:ops=%d" % len(ops))
+        ctx.oracle(bad is None, case, bad)
+        ctx.oracle(t.hash_info.value == gen.canonical_oid(cur), case,
+                   {"why": "identifier of a tree updated in place is not the canonical identifier of its entries", "got": t.hash_info.value})
+
+
 def run_path(ctx, n):
     rng = ctx.rng
     keys = []
@@ -356,7 +427,7 @@ def run(ctx):
     ctx.rule = (
         "entry sets (1-7 files, nested, odd names incl. quotes/backslash/newline/non-ASCII/'.dir', empty or missing hashes, "
         "every Meta field combination) x 6 insertion orders x with/without meta; real directories staged with jobs in "
-        "{None,1,2,8}, >=2 files over 1 MiB (thread-pool path), state cold/warm/partially warm/warm with the other md5 flavour's hashes, creation order permuted; "
+        "{None,1,2,8}; Tree objects queried, updated in place (entries re-added with new hashes) and queried again; >=2 files over 1 MiB (thread-pool path), state cold/warm/partially warm/warm with the other md5 flavour's hashes, creation order permuted; "
         "non-trivial = >= 2 entries; distinct = sha256 of the canonical case"
     )
     ctx.assumptions = [
@@ -369,12 +440,14 @@ def run(ctx):
     run_entry_sets(ctx, ctx.n(400, 5000))
     run_roundtrip(ctx, ctx.n(150, 2000))
     run_build(ctx, ctx.n(60, 500))
+    run_tree_history(ctx, ctx.n(120, 1500))
 
 
 def search(ctx):
     run_entry_sets(ctx, 5000)
     run_roundtrip(ctx, 2000)
     run_build(ctx, 400)
+    run_tree_history(ctx, 1500)
 
 
 def replay(ctx, payload):
